@@ -84,6 +84,12 @@ prop("C14", engine="monsim", level="exploration", technique="deterministic simul
      text="Over the timed call log: restart attempts of one channel never overlap; a restart requested during an attempt is followed by a later attempt; successful restarts <= debounced requests; attempts between data events <= MaxConsecutiveRestarts; persistent failure closes; at most one close-with-error; accept/complete timeouts close at exactly the deadline iff the awaited event did not arrive strictly before (never when 0); after a cleanup/terminal event nothing is restarted or closed, the subscription is gone and the id can be added again; nil config does nothing.",
      note="the restart back-off is not asserted (not in the statement)")
 
+prop("C12", engine="wire", level="exploration", technique="seeded generation of constructor arguments + stream-fault injection (chunking, truncation at every offset, read errors, bit flips) against an independent reference encoder written from schema.ipldsch; wire monitor inside the two-node simulation",
+     rule="one evaluation = 6 generated messages (all constructors; transfer ids over the full uint64 range incl. >= 2^63, non-UTF-8 peer ids, arbitrary IPLD vouchers): each is encoded (ToNet) and compared byte for byte with the reference encoder, decoded through a reader with tape-chosen chunking, round-tripped through ToIPLD/FromIPLD directly and through dag-cbor, re-encoded with reversed key order, truncated (6 sampled offsets; one stratum: every offset), hit by a read error at those offsets, 8-64 single-bit flips and a garbage suffix; plus 10 arbitrary byte strings / IPLD values and the null-body maps per run. distinct = hash of the generated encodings; non-trivial = every run. NOTE: constructor-argument generation has no schedule in it - the simulation-specific parts are the stream faults and the netsim wire monitor (every message that crosses the simulated wire in any netsim run is compared field by field at the receiver)",
+     probes=["roundtrips", "stream-faults", "bit-flips", "arbitrary-inputs", "exhaustive-truncation"], real=["message/message1_1prime (constructors, ToNet/FromNet, ToIPLD/FromIPLD, bindnode schema)", "message/types", "ipld-prime dag-cbor + bindnode"], stubs=["stream -> chunked reader with injected truncation / read errors / bit flips", "reference encoder: harness code written from schema.ipldsch (independent of bindnode)"], assumptions=["DAG-CBOR canonical form: map keys sorted by length then bytewise"],
+     text="Every constructed message keeps all observable fields through both encodings and classifies as exactly one kind; ToNet bytes equal the schema's DAG-CBOR map byte for byte; any key order decodes to the same message; Accepted == (err==nil && result.Accepted); truncated / corrupted / arbitrary input yields an error or the original message, never a panic and never a message without a body.",
+     note="mostly input generation (said plainly); level exploration")
+
 ORDER = ["C%02d" % i for i in range(1, 21)]
 PENDING = {pid: "check under construction in this session (engine not yet registered); not claimed until its quick command runs clean" for pid in ORDER if pid not in P}
 
@@ -125,6 +131,7 @@ def main():
         "engines": [
             {"name": "fsmsim", "path": "sim/fsmsim.go", "serves_properties": ["C02", "C03", "C06", "C07", "C08", "C09", "C11", "C17", "C19"], "kind_free_text": "real channels FSM stack on SimDisk under the simrt baton scheduler"},
             {"name": "monsim", "path": "sim/monsim.go", "serves_properties": ["C14"], "kind_free_text": "real channel monitor against a recording manager double on the fake clock"},
+            {"name": "wire", "path": "sim/wire.go", "serves_properties": ["C12"], "kind_free_text": "message codecs under generated inputs and stream faults, reference encoder from the schema"},
             {"name": "netsim", "path": "sim/netscen.go", "serves_properties": ["C01", "C02", "C04", "C09", "C10", "C11", "C19", "C20"], "kind_free_text": "two real managers over SimHost/SimGraphsync/SimDisk under the simrt baton scheduler, with fault injection"},
         ],
         "checks": checks,
